@@ -16,13 +16,14 @@ Local Open Scope string_scope.
 
 Record ref_entry := {
   r_name : string; r_known : bool; r_maxdim : option nat; r_minorder : Z;
-  r_parmax : parmax; r_scadef : scadef_kind; r_shape : shape; r_hash : Z; r_onRn : bool
+  r_parmax : parmax; r_scadef : scadef_kind; r_shape : shape; r_hash : Z; r_onRn : bool;
+  r_parmin_dim : bool   (* valid in R^d iff param >= (d-2)/2: any dimension is fine when the code enforces that bound *)
 }.
 
 Definition mk_ref (name : string) (maxdim : option nat) (minorder : Z) (pm : parmax) (sc : scadef_kind)
              (sh : shape) (hash : Z) : ref_entry :=
   {| r_name := name; r_known := true; r_maxdim := maxdim; r_minorder := minorder; r_parmax := pm;
-     r_scadef := sc; r_shape := sh; r_hash := hash; r_onRn := true |}.
+     r_scadef := sc; r_shape := sh; r_hash := hash; r_onRn := true; r_parmin_dim := false |}.
 
 Definition alld : option nat := None.
 Definition upto (n : nat) : option nat := Some n.
@@ -37,7 +38,8 @@ Definition ref_table : list ref_entry := [
   (* sin(h)/h = J_{1/2}: valid up to R^3 only *)
   mk_ref "Cardinal Sine"   (upto 3) (-1) nopar (SCconst (20371#1000)) ShOpaque 92268355471256;
   (* J_nu(h)/h^nu, 0 < nu <= 2: valid in R^d iff d <= 2 nu + 2; for every admissible nu only d <= 2 *)
-  mk_ref "J-Bessel"        (upto 2) (-1) (PMmax 2) (SCconst 1) ShOpaque 130270537090169;
+  {| r_name := "J-Bessel"; r_known := true; r_maxdim := upto 2; r_minorder := -1; r_parmax := PMmax 2;
+     r_scadef := SCconst 1; r_shape := ShOpaque; r_hash := 130270537090169; r_onRn := true; r_parmin_dim := true |};
   mk_ref "Matern"          alld     (-1) (PMmax 1000) SCsqrt12param ShOpaque 218672723734076;
   mk_ref "Gamma"           alld     (-1) (PMmax 1000) SCpow20inv_m1 ShOpaque 256574395154008;
   mk_ref "Cauchy"          alld     (-1) (PMmax 1000) SCsqrtpow20inv_m1 ShOpaque 83073204644994;
@@ -63,13 +65,13 @@ Definition ref_table : list ref_entry := [
   mk_ref "Spline-2 G.C."   alld     2    nopar (SCconst 1) ShOpaque 205745297379148;
   (* no reference entered (spectral / sphere-only structures: not offered on R^n) *)
   {| r_name := "Markov"; r_known := false; r_maxdim := None; r_minorder := -1; r_parmax := PMmax 1000;
-     r_scadef := SCsqrt12ncoeffs; r_shape := ShNone; r_hash := 0; r_onRn := false |};
+     r_scadef := SCsqrt12ncoeffs; r_shape := ShNone; r_hash := 0; r_onRn := false; r_parmin_dim := false |};
   {| r_name := "Geometric"; r_known := false; r_maxdim := None; r_minorder := -1; r_parmax := nopar;
-     r_scadef := SCconst 1; r_shape := ShNone; r_hash := 0; r_onRn := false |};
+     r_scadef := SCconst 1; r_shape := ShNone; r_hash := 0; r_onRn := false; r_parmin_dim := false |};
   {| r_name := "Poisson"; r_known := false; r_maxdim := None; r_minorder := -1; r_parmax := PMmax 1000;
-     r_scadef := SCconst 1; r_shape := ShNone; r_hash := 0; r_onRn := false |};
+     r_scadef := SCconst 1; r_shape := ShNone; r_hash := 0; r_onRn := false; r_parmin_dim := false |};
   {| r_name := "LinearSph"; r_known := false; r_maxdim := None; r_minorder := -1; r_parmax := nopar;
-     r_scadef := SCconst 1; r_shape := ShNone; r_hash := 0; r_onRn := false |}
+     r_scadef := SCconst 1; r_shape := ShNone; r_hash := 0; r_onRn := false; r_parmin_dim := false |}
 ].
 
 Fixpoint lookup (name : string) (l : list ref_entry) : option ref_entry :=
@@ -102,7 +104,8 @@ Definition shape_eqb (a b : shape) : bool :=
   match a, b with ShPoly, ShPoly | ShOpaque, ShOpaque | ShNone, ShNone => true | _, _ => false end.
 
 (* individual checks; the code identifies the check in reports *)
-Definition chk_dim (e : cov_entry) (r : ref_entry) : bool := negb (r_known r) || dim_le (ce_maxdim e) (r_maxdim r).
+Definition chk_dim (e : cov_entry) (r : ref_entry) : bool :=
+  negb (r_known r) || dim_le (ce_maxdim e) (r_maxdim r) || (r_parmin_dim r && ce_parmin_dim e).
 Definition chk_order (e : cov_entry) (r : ref_entry) : bool := negb (r_known r) || Z.leb (r_minorder r) (ce_minorder e).
 (* a compactly supported structure vanishes beyond its RANGE: support (in normalised distance) <= scadef *)
 Definition chk_support (e : cov_entry) (r : ref_entry) : bool :=
